@@ -115,10 +115,6 @@ func (s streamPRF) ComputePRF(data []byte, n uint32) ([]byte, error) {
 	return out, err
 }
 
-type kwpAEAD struct{ k *kwpsubtle.KWP }
-
-type polyPRF struct{ key []byte }
-
 func (s *engine) sectionSubtle(seed uint64) {
 	e := s
 	rng := hlib.NewRng(seed, "c19-subtle-keys")
@@ -143,29 +139,31 @@ func (s *engine) sectionSubtle(seed uint64) {
 			}
 			return indcpaAEAD{c}, nil
 		}}, seed)
-	// encrypt-then-authenticate over AES-CTR and HMAC: both keys are constructor inputs
-	e.ctorPrim(ctor{api: "aead/subtle.NewEncryptThenAuthenticate(NewAESCTR,NewHMAC)", opapi: "aead/subtle.EncryptThenAuthenticate", class: "aead",
-		ins: []in1{{"aesKey", k16}, {"hmacKey", k32}},
-		build: func(ins [][]byte) (any, error) {
-			c, err := aeadsubtle.NewAESCTR(ins[0], 16)
-			if err != nil {
-				return nil, err
-			}
-			m, err := macsubtle.NewHMAC("SHA256", ins[1], 16)
-			if err != nil {
-				return nil, err
-			}
-			return aeadsubtle.NewEncryptThenAuthenticate(c, m, 16)
-		}}, seed)
+	// encrypt-then-authenticate over AES-CTR and HMAC (the constructor takes no bytes itself)
+	mkEtA := func() (any, error) {
+		c, err := aeadsubtle.NewAESCTR(cl(k16), 16)
+		if err != nil {
+			return nil, err
+		}
+		m, err := macsubtle.NewHMAC("SHA256", cl(k32), 16)
+		if err != nil {
+			return nil, err
+		}
+		return aeadsubtle.NewEncryptThenAuthenticate(c, m, 16)
+	}
+	if q, err := mkEtA(); err == nil {
+		e.primOps(primSrc{api: "aead/subtle.EncryptThenAuthenticate", class: "aead", q: q,
+			mk: func() (any, func() string, error) { p, err := mkEtA(); return p, nil, err }}, hlib.NewRng(seed, "subtle/eta"))
+	}
 	// KMS envelope AEAD over a remote AEAD
 	remote, _ := aeadsubtle.NewAESGCM(cl(k16))
 	e.primOps(primSrc{api: "aead.NewKMSEnvelopeAEAD2", class: "aead", q: aead.NewKMSEnvelopeAEAD2(aead.AES128GCMKeyTemplate(), remote),
 		mk: func() (any, func() string, error) {
 			return aead.NewKMSEnvelopeAEAD2(aead.AES128GCMKeyTemplate(), remote), nil, nil
 		}}, hlib.NewRng(seed, "subtle/kmsenv"))
-	if params, err := aesgcm.NewParameters(aesgcm.ParametersOpts{KeySizeInBytes: 16, IVSizeInBytes: 12, TagSizeInBytes: 16, Variant: aesgcm.VariantNoPrefix}); err == nil {
+	{
 		mkctx := func() (any, error) {
-			w, err := aead.NewKMSEnvelopeAEADWithContext(params, ctxAEAD{remote})
+			w, err := aead.NewKMSEnvelopeAEADWithContext(aead.AES128GCMKeyTemplate(), ctxAEAD{remote})
 			if err != nil {
 				return nil, err
 			}
